@@ -477,6 +477,15 @@ func GetLookupPath() string {
 	return runningConfig.DataPath + "lookups/"
 }
 
+// GetLookupPathForOrg returns the directory of the lookup files of orgid: org 0 keeps
+// GetLookupPath(), every other org has a sub-directory of its own.
+func GetLookupPathForOrg(orgid int64) string {
+	if orgid == 0 {
+		return GetLookupPath()
+	}
+	return GetLookupPath() + strconv.FormatInt(orgid, 10) + "/"
+}
+
 // returns if tls is enabled
 func IsTlsEnabled() bool {
 	return runningConfig.TLS.Enabled
